@@ -12,7 +12,7 @@ EXTENDS Regex, Json, IOUtils
 
 Defs == JsonDeserialize(IOEnv.LEX_CASES)
 NC   == Len(Defs)
-PatsOf == TLCEval([k \in 1..NC |-> Pats(Defs[k])])
+PatsOf == [k \in 1..NC |-> Pats(Defs[k])]
 
 VARIABLES c, p, w, d
 vars == <<c, p, w, d>>
